@@ -170,7 +170,7 @@ class C09(Scenario):
                    "quantity names / functions are not corrupted (not content)", "a corrupted document the library refuses to "
                    "load is skipped and counted (C15's business)"]
     expected_faults = ["doc_value_corrupt", "dup_record", "lost_record", "weight_swap"]
-    expected_probes = ["pair_differs_one_ulp", "pair_differs_key", "pair_differs_trailing", "clean_pair_equal", "tolerance_pair"]
+    expected_probes = ["pair_differs_one_ulp", "pair_differs_key", "pair_differs_trailing", "clean_pair_equal", "tolerance_pair", "equal_after_history"]
 
     def generate(self, rng, tier, profile):
         sp, recs, fills, fills2 = gen_base(rng, tier, max_fill=14)
@@ -235,6 +235,24 @@ class C09(Scenario):
             if not o.ok:
                 continue  # copy / pickle failing is C04 / C11's business
             self._must_equal(h, o.value, how, root, 0, w)
+        # the same comparisons again after the object has been compared and then merged into in place: a comparison must
+        # not leave anything behind that a later += invalidates
+        hh = make_state(self, w, case)
+        other = make_state(self, w, {"fills": case["fills"][::-1][: max(1, len(case["fills"]) // 2)], "fills2": None})
+        call(lambda: hh == hh.copy())
+
+        def _iadd():
+            x = hh
+            x += other
+            return x
+
+        if call(_iadd).ok:
+            for how, mk in (("copy-after-iadd", lambda: hh.copy()), ("pickle-after-iadd", lambda: pickle.loads(pickle.dumps(hh))),
+                            ("add-after-iadd", lambda: hh + hh.zero())):
+                o = call(mk)
+                if o.ok:
+                    self._must_equal(hh, o.value, how, root, 0, w)
+            w.bump("probe_equal_after_history")
         a = call(hg.Factory.fromJson, copy.deepcopy(doc))
         a2 = call(hg.Factory.fromJson, copy.deepcopy(doc))
         if not a.ok or not a2.ok:
